@@ -29,7 +29,8 @@ func verifGKey(group int, suffix byte) []byte { return []byte{0, byte(group), su
 // level, by shape; values arbitrary), checkpoint. N new databases are opened from the handles of
 // the old databases whose range overlaps theirs, listed in ANY order (the job records them in
 // acknowledgement order). Every new database must hold exactly the latest value of each key it
-// owns, and writes/deletes after the restore must take effect.
+// owns, writes/deletes after the restore must take effect, and the new database must be able to
+// take the next checkpoint, which in turn restores to the same state.
 func Harness_C06_RestoreFilter() {
 	verif.FixedRand(3, 1, 4, 1, 5, 9, 2, 6)
 	verif.Abstract("bloom.Filter")
@@ -118,16 +119,38 @@ func Harness_C06_RestoreFilter() {
 			}
 		}
 		// writes after the restore take effect (sequence numbers continue above every loaded table)
+		after := map[string][]byte{}
+		for _, k := range keysWritten {
+			if own.OwnsKey(k) {
+				after[string(k)] = want[string(k)]
+			}
+		}
 		for _, k := range keysWritten {
 			if own.OwnsKey(k) {
 				nv := verif.Bytes("nv", 1)
 				db.Put(k, nv)
+				after[string(k)] = nv
 				e, err := db.Get(k)
 				verif.Assert(err == nil && bytes.Equal(e.Value(), nv), "write-after-rescale-takes-effect")
 				break
 			}
 		}
 		verif.Assert(db.WaitOnTasks() == nil, "background-tasks-succeed")
+		// the rescaled database takes the job's next checkpoint, and that checkpoint restores
+		h2, err := db.Checkpoint(6)()
+		verif.Assert(err == nil, "checkpoint-after-rescale-succeeds")
+		db2 := Open(opts(root.WithWorkingDir([]string{"new1b", "new2b"}[ni]), own), []recovery.CheckpointHandle{h2})
+		for _, k := range keysWritten {
+			if !own.OwnsKey(k) {
+				continue
+			}
+			e, err := db2.Get(k)
+			if w := after[string(k)]; w == nil {
+				verif.Assert(err == kv.ErrNotFound || (err == nil && e.IsDelete()), "deleted-key-stays-deleted-in-the-next-checkpoint")
+			} else {
+				verif.Assert(err == nil && !e.IsDelete() && bytes.Equal(e.Value(), w), "next-checkpoint-after-rescale-restores-the-state")
+			}
+		}
 	}
 	verif.Reached()
 }
